@@ -166,6 +166,7 @@ Proof.
       * destruct (drain_buffer _) as [st2 cbs] eqn:DB. inversion H; subst; sproj.
         apply drain_buffer_frame in DB. sproj. apply SRSame. tauto.
       * destruct (find_offer false (s_clients st)) as [a0|]; [|discriminate].
+        destruct (client_of st a0); try discriminate.
         destruct (drain_buffer _) as [st2 cbs] eqn:DB. inversion H; subst; sproj.
         apply drain_buffer_frame in DB. sproj. apply SRSame. tauto.
   - destruct added; same_slfu H.
@@ -191,7 +192,8 @@ Proof.
   - destruct (s_pqueue st); [discriminate|]. destruct (tl_increments _ _); [|discriminate].
     intros H; inversion H; subst; sproj; reflexivity.
   - destruct (0 <? s_pol_stop_msgs st); [intros H; inversion H; subst; sproj; reflexivity|].
-    destruct (find_offer true (s_clients st)); [|discriminate]. intros H; inversion H; subst; sproj; reflexivity.
+    destruct (find_offer true (s_clients st)) as [a0|]; [|discriminate]. destruct (client_of st a0); try discriminate.
+    intros H; inversion H; subst; sproj; reflexivity.
 Qed.
 
 (* Every step of the cache — whichever actor takes it, in whatever state — changes the policy's
